@@ -11,12 +11,12 @@ import ber  # noqa: E402
 PDU_OF = {"get": 0, "getmany": 0, "getnext": 1, "getbulk": 5, "refresh": 0}
 
 
-PART = __import__("re").compile(r"^\+?[0-9]+$")
+PART = __import__("re").compile(r"\+?[0-9]+")
 
 
 def text_denotes(t):
     parts = t.split(".")
-    if len(parts) < 2 or not all(PART.match(p) for p in parts):
+    if len(parts) < 2 or not all(PART.fullmatch(p) for p in parts):
         return None
     arcs = [int(p) for p in parts]
     if arcs[0] > 2 or arcs[1] > 39 or any(a > 2 ** 32 - 1 for a in arcs):
